@@ -8,7 +8,7 @@
      get_actor_object_id                 resolution of ACTOR_STATE_SELF / ACTOR_STATE_OUTER_OBJECT
 
    modelled AS WRITTEN, in the code's order, up to the point where the access decision is taken
-   (`Admitted`); what follows in the code (kernel ownership/visibility checks, schema validation,
+   (`Granted`); what follows in the code (kernel ownership/visibility checks, schema validation,
    module checks, the node move itself) is outside this model.
    Blueprint ids are pairs of abstract codes (package, name); node ids are abstract codes; the type
    info of the nodes a frame can see is an association list.  No proofs here. *)
@@ -81,7 +81,7 @@ Definition get_object_id (a : actor) : option (N * option N) :=
   end.
 
 Inductive outcome :=
-| Admitted                     (* the access decision is positive; later steps are outside the model *)
+| Granted                     (* the access decision is positive; later steps are outside the model *)
 | ENodeNotVisible              (* kernel error reading the type info (node unknown to the frame) *)
 | ENotAnObject
 | EInvalidDropAccess
@@ -99,7 +99,7 @@ Inductive outcome :=
 
 Definition outcome_eqb (a b : outcome) : bool :=
   match a, b with
-  | Admitted, Admitted | ENodeNotVisible, ENodeNotVisible | ENotAnObject, ENotAnObject
+  | Granted, Granted | ENodeNotVisible, ENodeNotVisible | ENotAnObject, ENotAnObject
   | EInvalidDropAccess, EInvalidDropAccess
   | EInvalidGlobalAddressReservation, EInvalidGlobalAddressReservation
   | EPhantomMissing, EPhantomMissing | EInvalidGlobalizeAccess, EInvalidGlobalizeAccess
@@ -140,10 +140,10 @@ Definition drop_check (h : heap) (a : actor) (n : N) : outcome :=
       match instance_context_check with
       | Some o =>
           (* "If outer object exists, only outer object may drop object" *)
-          if opt_N_eqb (instance_context a) o then Admitted else EInvalidDropAccess
+          if opt_N_eqb (instance_context a) o then Granted else EInvalidDropAccess
       | None =>
           (* "Otherwise, only blueprint may drop object" *)
-          if opt_bp_eqb (actor_bp a) (oi_bp info) then Admitted else EInvalidDropAccess
+          if opt_bp_eqb (actor_bp a) (oi_bp info) then Granted else EInvalidDropAccess
       end
   end.
 
@@ -166,7 +166,7 @@ Definition globalize_check (h : heap) (a : actor) (n : N) (reservation : N) (has
             | inr info =>
                 if oi_global info then ECannotGlobalizeAlreadyGlobalized
                 else if negb (bp_eqb (oi_bp info) reserved) then ECannotGlobalizeInvalidBlueprintId
-                else Admitted
+                else Granted
             end
       | _ => EPhantomMissing
       end
@@ -275,7 +275,7 @@ Definition sys_step (defs : bp -> option bptype) (h : heap) (o : sysop) : heap :
   | OpGlobalize a n reservation =>
       if negb (actor_consistent h a) then h else
       match globalize_check h a n reservation true, lookup h reservation, get_object_info h n with
-      | Admitted, Some (TReservation addr), inr i =>
+      | Granted, Some (TReservation addr), inr i =>
           (* the phantom becomes the object (same blueprint info, ObjectType::Global);
              the owned node and the reservation are dropped *)
           (addr, TObject (mkOI (oi_bp i) (oi_outer i) true)) :: remove (remove (remove h addr) n) reservation
@@ -284,7 +284,7 @@ Definition sys_step (defs : bp -> option bptype) (h : heap) (o : sysop) : heap :
   | OpDrop a n =>
       if negb (actor_consistent h a) then h else
       match drop_check h a n, get_object_info h n with
-      | Admitted, inr i =>
+      | Granted, inr i =>
           (* global nodes are owned by no frame: kernel_drop_node refuses them *)
           if oi_global i then h else remove h n
       | _, _ => h
